@@ -61,13 +61,38 @@ func genC08E2E(p *sim.Plan, r *sim.Rand) {
 	}
 	if p.Mode == "raw" {
 		p.SetB("double", r.Bool(0.3))
-		if r.Bool(0.4) {
-			// broadcasts aimed at the instant of the return, and a restoration that takes its time: a packet
-			// is logged between the scan of the log and the admission of the restored socket
-			for k := 0; k < r.Range(2, 6); k++ {
+		// ConnectionStateRecovery.UseMiddlewares: a returning session passes the namespace middlewares
+		// (one that takes mw_us) between the scan of the log and its admission
+		if r.Bool(0.3) {
+			p.SetB("use_mw", true)
+			p.Set("mw_us", []int64{0, 100, 5000, 40000}[r.Intn(4)])
+		}
+		if r.Bool(0.5) {
+			// broadcasts aimed at the instant of the return (the CONNECT reaches the server three to five
+			// one-way trips after the peer set out), and a restoration that takes its time: a packet is
+			// logged between the scan of the log and the admission of the restored socket
+			trips := int64(r.Range(3, 5))
+			tight := r.Bool(0.5)
+			if tight {
+				// no latency, a broadcast every few milliseconds across the return
+				p.Set("lat_us", 0)
+				p.Set("jit_us", 0)
+			}
+			cnt := r.Range(3, 8)
+			if tight {
+				cnt = 16
+			}
+			for k := 0; k < cnt; k++ {
 				n++
-				at := disc + gap - 3_000_000 + r.I64n(40_000_000)
-				p.Ops = append(p.Ops, sim.Op{At: at, Actor: 0, Kind: []string{"nsp", "except"}[r.Intn(2)], I: []int64{int64(n), 0, int64(r.Intn(8)), int64(r.Intn(4) / 3)}})
+				at := disc + gap + trips*p.C("lat_us")*1000 - 3_000_000 + r.I64n(40_000_000)
+				if tight {
+					at = disc + gap - 4_000_000 + int64(k)*4_000_000 + r.I64n(2_000_000)
+				}
+				kind := []string{"nsp", "except"}[r.Intn(2)]
+				if tight {
+					kind = "nsp" // addressed to the session whatever its rooms
+				}
+				p.Ops = append(p.Ops, sim.Op{At: at, Actor: 0, Kind: kind, I: []int64{int64(n), 0, int64(r.Intn(8)), int64(r.Intn(4) / 3)}})
 			}
 			files := []string{"namespace.go", "server_socket.go", "server_conn.go", "adapter_session_aware.go", "packet_queue.go", "store.go"}
 			p.Stall = DrawStall(r, 300_000_000, files...)
@@ -75,6 +100,13 @@ func genC08E2E(p *sim.Plan, r *sim.Rand) {
 			p.Stall.SitePct = 100
 			p.Stall.RatePPM = []int{50000, 200000, 500000}[r.Intn(3)]
 			p.Stall.MaxNs = []int64{2_000_000, 20_000_000, 50_000_000}[r.Intn(3)]
+			if tight {
+				// only the admission itself is slow (namespace.go: Namespace.add / doConnect), the emitter is not
+				p.Stall.Focus = []string{"namespace.go"}
+				p.Stall.RatePPM = 300_000
+				p.Stall.MinNs = 5_000_000
+				p.Stall.MaxNs = 40_000_000
+			}
 		}
 	}
 	if p.Mode == "goclient" {
@@ -187,8 +219,16 @@ func runC08Raw(e *sim.Env) {
 			}
 		}
 	}
-	srv := w.StartServer(world.ServerOpts{Recovery: true, MaxDisconnect: W, PingInterval: 25 * time.Second, PingTimeout: 20 * time.Minute,
-		Configure: func(s *sio.Server) { reg.Watch(s.Of("/")) }})
+	srv := w.StartServer(world.ServerOpts{Recovery: true, MaxDisconnect: W, UseMiddlewares: p.B("use_mw"), PingInterval: 25 * time.Second, PingTimeout: 20 * time.Minute,
+		Configure: func(s *sio.Server) {
+			reg.Watch(s.Of("/"))
+			if p.B("use_mw") {
+				s.Of("/").Use(func(sio.ServerSocket, *sio.Handshake) any {
+					time.Sleep(time.Duration(p.C("mw_us")) * time.Microsecond)
+					return nil
+				})
+			}
+		}})
 	raw := w.NewRawPeer("c0")
 
 	var mu sync.Mutex
@@ -509,6 +549,30 @@ func runC08Raw(e *sim.Env) {
 				cls = "C08/recovered-with-extra"
 			}
 			e.Violate(cls, sig, "recovered from offset %q: replayed %v, missed while away %v (had before: %v)", lastOffset, replayOnly, missed, keysInt(had))
+		}
+		if !p.B("double") {
+			// What is emitted after the peer set out to return is addressed to the session as well: it is
+			// in the log before the scan, or broadcast after the admission - never in between.
+			endAt := base + p.Horizon - int64(time.Second)
+			for _, em := range emits {
+				if em.id <= 0 || !mine(em) || em.at < recAt || em.ret >= endAt {
+					continue
+				}
+				cnt := 0
+				for _, g := range got {
+					if g.phase >= 1 && g.id == em.id {
+						cnt++
+					}
+				}
+				e.Check()
+				if cnt == 0 {
+					e.Violate("C08/recovered-with-gap", sig, "event #%d, emitted %v after the peer set out to return (it recovered from offset %q), never reached it", em.id, time.Duration(em.at-recAt), lastOffset)
+					break
+				} else if cnt > 1 {
+					e.Violate("C08/recovered-with-duplicate", sig, "event #%d, emitted %v after the peer set out to return, reached it %d times", em.id, time.Duration(em.at-recAt), cnt)
+					break
+				}
+			}
 		}
 		for _, g := range got {
 			if g.phase == 1 && g.bin != "" && g.bin != base64.StdEncoding.EncodeToString(c08Bin(g.id)) {
